@@ -26,7 +26,7 @@ def ptlit(p):
     return '[' + '; '.join('(%s, %s, %s, %s)' % tuple(flit(c) for c in t) for t in p) + ']'
 
 
-def run_one(rng, nd, cname, method, n, order, dim, gen_kind, full_output):
+def run_one(rng, nd, cname, method, n, order, dim, gen_kind, full_output, via_setter=False):
     seen = []
 
     def f(x):
@@ -56,7 +56,23 @@ def run_one(rng, nd, cname, method, n, order, dim, gen_kind, full_output):
         kw['step'] = nd.MaxStepGenerator(base_step=float(rng.choice([0.5, 1.0, 2.0])), step_ratio=float(rng.choice([2.0, 1.6])), num_steps=int(rng.integers(8, 14)))
     elif gen_kind == 'scalar':
         kw['step'] = float(rng.choice([1e-2, 1e-3]))
-    d = getattr(nd, cname)(f, **kw)
+    if via_setter:
+        # the configuration arrives through the attribute setters of an object built with ANOTHER method / order (/ n): it must then behave as
+        # an object constructed with the final configuration
+        kw0 = dict(kw)
+        kw0['method'] = 'central' if method != 'central' else 'forward'
+        if 'order' in kw0:
+            kw0['order'] = 2 if order != 2 else 4
+        if cname == 'Derivative':
+            kw0['n'] = 1 if n != 1 else 2
+        d = getattr(nd, cname)(f, **kw0)
+        if cname == 'Derivative':
+            d.n = n
+        if 'order' in kw:
+            d.order = order
+        d.method = method
+    else:
+        d = getattr(nd, cname)(f, **kw)
     if cname == 'Derivative':
         x = float(rng.uniform(0.3, 2.0)) if dim == 1 else rng.uniform(0.3, 2.0, size=dim)
     else:
@@ -141,7 +157,9 @@ def run(ctx):
         fo = bool(rng.random() < 0.3)
         desc = {'class': cname, 'method': method, 'n': n, 'order': order, 'dim': dim, 'steps': gen_kind, 'full_output': fo}
         try:
-            d, x, steps, seen = run_one(rng, nd, cname, method, n, order, dim, gen_kind, fo)
+            via_setter = (k >= 0 and k % 6 == 5 and not (cname in ('Jacobian', 'Gradient') and n != 1)) or (-12 <= k < 0 and k % 2 == 0 and cname == 'Derivative')
+            desc['configured_through_setters'] = via_setter
+            d, x, steps, seen = run_one(rng, nd, cname, method, n, order, dim, gen_kind, fo, via_setter)
         except ValueError as ex:
             if 'num_steps' in str(ex):
                 continue
